@@ -144,10 +144,10 @@ def specLifetime (msg : Msg) (neg : Bool) (now : Int) : Int :=
 
 theorem scan_le_spec (cfg : Cfg) (msg : Msg) (neg : Bool) (now : Int)
     (h1 : cfg.minC ≤ 5 * S) (h2 : cfg.maxC ≤ 86400 * S) :
-    scanMin cfg msg neg now ≤ (specComponents msg neg now).foldl boundMin (86400 * S)
-      ∨ scanMin cfg msg neg now ≤ 5 * S := by
+    scanMin cfg msg now ≤ (specComponents msg neg now).foldl boundMin (86400 * S)
+      ∨ scanMin cfg msg now ≤ 5 * S := by
   rcases foldl_boundMin_mem (specComponents msg neg now) (86400 * S) with h | h
-  · left; rw [h]; exact Int.le_trans (scanMin_le_max cfg msg neg now) h2
+  · left; rw [h]; exact Int.le_trans (scanMin_le_max cfg msg now) h2
   · generalize (specComponents msg neg now).foldl boundMin (86400 * S) = c at h ⊢
     unfold specComponents at h
     simp only [List.mem_append, List.mem_map, List.mem_filterMap, List.mem_filter] at h
@@ -155,9 +155,9 @@ theorem scan_le_spec (cfg : Cfg) (msg : Msg) (neg : Bool) (now : Int)
     · -- a record TTL
       left
       rcases hrr with (ha | hn) | ⟨he, ho⟩
-      · exact scanMin_le_answer cfg msg neg now rr _ ha (fun m => stepAnswer_le_ttl _ _ m rr)
-      · exact scanMin_le_ns cfg msg neg now rr _ hn (fun m => stepNs_le_ttl _ _ _ m rr)
-      · exact scanMin_le_extra cfg msg neg now rr _ he
+      · exact scanMin_le_answer cfg msg now rr _ ha (fun m => stepAnswer_le_ttl _ _ m rr)
+      · exact scanMin_le_ns cfg msg now rr _ hn (fun m => stepNs_le_ttl _ _ m rr)
+      · exact scanMin_le_extra cfg msg now rr _ he
           (fun m => stepExtra_le_ttl _ _ m rr (by simpa using ho))
     · -- an RRSIG's time to expiry
       cases hkind : rr.kind with
@@ -165,11 +165,11 @@ theorem scan_le_spec (cfg : Cfg) (msg : Msg) (neg : Bool) (now : Int)
         rw [hkind] at hk
         simp only [Option.some.injEq] at hk
         subst hk
-        have hsig : scanMin cfg msg neg now ≤ getRRSIGTTL cfg.minC rr.ttl e now := by
+        have hsig : scanMin cfg msg now ≤ getRRSIGTTL cfg.minC rr.ttl e now := by
           rcases hrr with (ha | hn) | ⟨he, _⟩
-          · exact scanMin_le_answer cfg msg neg now rr _ ha (fun m => stepAnswer_le_sig _ _ m rr e hkind)
-          · exact scanMin_le_ns cfg msg neg now rr _ hn (fun m => stepNs_le_sig _ _ _ m rr e hkind)
-          · exact scanMin_le_extra cfg msg neg now rr _ he (fun m => stepExtra_le_sig _ _ m rr e hkind)
+          · exact scanMin_le_answer cfg msg now rr _ ha (fun m => stepAnswer_le_sig _ _ m rr e hkind)
+          · exact scanMin_le_ns cfg msg now rr _ hn (fun m => stepNs_le_sig _ _ m rr e hkind)
+          · exact scanMin_le_extra cfg msg now rr _ he (fun m => stepExtra_le_sig _ _ m rr e hkind)
         by_cases hpos : 0 < e - now
         · left; exact Int.le_trans hsig (getRRSIGTTL_le_tue _ _ _ _ hpos)
         · right; rw [getRRSIGTTL_expired _ _ _ _ (by omega)] at hsig; omega
@@ -188,7 +188,7 @@ theorem scan_le_spec (cfg : Cfg) (msg : Msg) (neg : Bool) (now : Int)
           rw [hkind] at hk
           simp only [Option.some.injEq] at hk
           subst hk
-          exact scanMin_le_ns cfg msg true now rr _ hn (fun m => stepNs_le_soa _ _ m rr mn hkind)
+          exact scanMin_le_ns cfg msg now rr _ hn (fun m => stepNs_le_soa _ _ m rr mn hkind)
         | plain => rw [hkind] at hk; cases hk
         | rrsig _ => rw [hkind] at hk; cases hk
         | opt => rw [hkind] at hk; cases hk
@@ -220,15 +220,15 @@ theorem admission_upper_bound (cfg : Cfg) (msg : Msg) (rt : RespType) (now : Int
       · exact Int.le_trans h hcalc
       · rw [h]; omega
     have hbody : (if !hasRecords msg then cfg.minC else
-        if scanMin cfg msg rt.isNegative now < cfg.minC then cfg.minC
-        else if scanMin cfg msg rt.isNegative now > cfg.maxC then cfg.maxC
-        else scanMin cfg msg rt.isNegative now) ≤ specLifetime msg rt.isNegative now := by
+        if scanMin cfg msg now < cfg.minC then cfg.minC
+        else if scanMin cfg msg now > cfg.maxC then cfg.maxC
+        else scanMin cfg msg now) ≤ specLifetime msg rt.isNegative now := by
       split
       · omega
       · have hc := scan_le_spec cfg msg rt.isNegative now h1 h2
-        have hmax := scanMin_le_max cfg msg rt.isNegative now
+        have hmax := scanMin_le_max cfg msg now
         have hfold := foldl_boundMin_le_init (specComponents msg rt.isNegative now) (86400 * S)
-        generalize scanMin cfg msg rt.isNegative now = m at hc hmax ⊢
+        generalize scanMin cfg msg now = m at hc hmax ⊢
         unfold specLifetime clamp at hspec5 ⊢
         generalize (specComponents msg rt.isNegative now).foldl boundMin (86400 * S) = c at hc hfold hspec5 ⊢
         split
@@ -275,10 +275,12 @@ theorem tree_rrsig_facts :
 
 /-- **Negative answers are bounded by the RRSIG window and the SOA minimum
 in the compiled `CalculateCacheTTL`** (a 40 s signature on an NXDOMAIN whose
-SOA says 300 s; a 60 s SOA minimum under a 3600 s SOA TTL). -/
+SOA says 300 s; a 60 s SOA minimum under a 3600 s SOA TTL — also when the
+message is an alias answer classified as a success, /repo 8b1500e). -/
 theorem tree_negative_facts :
     SdnsVerif.Gen.C04.neg_sig40_soa300_s ≤ 40 ∧
-    SdnsVerif.Gen.C04.nodata_soamin60_s ≤ 60 := by
+    SdnsVerif.Gen.C04.nodata_soamin60_s ≤ 60 ∧
+    SdnsVerif.Gen.C04.alias_soamin60_s ≤ 60 := by
   decide
 
 /-- **The ceilings of the proof and cut indexes stay within 24 h.** -/
@@ -305,6 +307,46 @@ theorem replace_upper_bound (cfg : Cfg) (msg : Msg) (rt : RespType) (now : Int)
   have := (admission_upper_bound cfg msg rt now false hrt h1 h2 h3).1
   unfold admitTTL capTTL at this
   simpa [replaceTTL] using this
+
+/-- **An SOA in the authority section bounds the entry by its MINIMUM
+whatever the response class** (/repo 8b1500e): an alias answer merged with its
+target's NODATA / NXDOMAIN proof is stored as a success, and still may not
+keep the denial past the negative TTL (floored at 5 s like every admission). -/
+theorem admission_bounded_by_soa_minimum (cfg : Cfg) (msg : Msg) (rt : RespType) (now : Int) (sc : Bool)
+    (rr : RR) (mn : Nat) (hrr : rr ∈ msg.ns) (hk : rr.kind = .soa mn) (hrt : rt ≠ .servfail)
+    (h1 : cfg.minC ≤ 5 * S) (h3 : cfg.posMin ≤ 5 * S) :
+    admitTTL cfg msg rt now sc ≤ (mn : Int) * S ∨ admitTTL cfg msg rt now sc ≤ 5 * S := by
+  have hscan := scanMin_le_ns cfg msg now rr _ hrr (fun m => stepNs_le_soa _ _ m rr mn hk)
+  have hcap := capTTL_le sc cfg.ecsMax (ttlManagerCalculate cfg.posMin cfg.posMax (calculateCacheTTL cfg msg rt now))
+  have hcalc : calculateCacheTTL cfg msg rt now ≤ (mn : Int) * S ∨ calculateCacheTTL cfg msg rt now ≤ 5 * S := by
+    have hbody : (if !hasRecords msg then cfg.minC else
+        if scanMin cfg msg now < cfg.minC then cfg.minC
+        else if scanMin cfg msg now > cfg.maxC then cfg.maxC
+        else scanMin cfg msg now) ≤ (mn : Int) * S ∨
+        (if !hasRecords msg then cfg.minC else
+        if scanMin cfg msg now < cfg.minC then cfg.minC
+        else if scanMin cfg msg now > cfg.maxC then cfg.maxC
+        else scanMin cfg msg now) ≤ 5 * S := by
+      generalize scanMin cfg msg now = m at hscan ⊢
+      split
+      · right; omega
+      · split
+        · right; omega
+        · split
+          · left; omega
+          · left; omega
+    cases rt with
+    | servfail => exact absurd rfl hrt
+    | other => right; unfold calculateCacheTTL; simp only; omega
+    | success => unfold calculateCacheTTL; simpa using hbody
+    | nxdomain => unfold calculateCacheTTL; simpa using hbody
+    | norecords => unfold calculateCacheTTL; simpa using hbody
+  unfold admitTTL
+  rcases ttlManager_le cfg.posMin cfg.posMax (calculateCacheTTL cfg msg rt now) with h | h
+  · rcases hcalc with hc | hc
+    · left; omega
+    · right; omega
+  · right; rw [h] at hcap ⊢; omega
 
 /-! ## lineage -/
 
@@ -644,6 +686,10 @@ example : admitTTL (exCfg 0) { answer := [{ ttl := 100000 }] } .success 0 false 
 example : admitTTL (exCfg (7 * S)) { answer := [{ ttl := 300 }] } .success 0 true = 7 * S := by decide
 example : specLifetime { ns := [{ ttl := 300, kind := .soa 300 }, { ttl := 300, kind := .rrsig (40 * S) }] } true 0 = 40 * S := by
   decide
+
+-- an alias answer that carries its target's SOA (TTL 3600, minimum 60) is stored for 60 s
+example : admitTTL (exCfg 0) { answer := [{ ttl := 3600 }], ns := [{ ttl := 3600, kind := .soa 60 }] } .success 0 false
+    = 60 * S := by decide
 
 -- composition: alias admitted 40 s after a 60 s target inherits its 20 s
 example : (composedEntry none [{ stored := 0, ttl := 60 * S }] (40 * S) (600 * S)).hardUntil = 60 * S := by decide
